@@ -372,6 +372,7 @@ def shapes():
         "e_gen": lambda: TypeSpec("enum", [Variant("A", "tuple", [F(None, "A")]), Variant("B", "named", [F("a", "A"), F("b", "u8")])],
                                   [("A: P", "u8")], shape="e_gen"),
         "s_po": lambda: S("named", [F("a", "Po"), F("b", "u8")], "s_po"),
+        "s_wo": lambda: S("named", [F("a", "Wo"), F("b", "u8")], "s_wo"),
         "s_nr": lambda: S("named", [F("a", "u8"), F("b", "Nr"), F("c", "u8")], "s_nr"),
         "e_nr": lambda: TypeSpec("enum", [Variant("A", "tuple", [F(None, "Nr")]), Variant("B", "unit", [])], shape="e_nr"),
         # an explicit type-level bound() that stops the bound resolution (nothing is needed for these concrete fields): must not change what is hashed
